@@ -67,10 +67,28 @@ def ev(expr, env):
     return eval(expr, {"__builtins__": __builtins__}, ns)
 
 
+def split_top(s):
+    """split a type list at top-level commas"""
+    out, depth, cur = [], 0, ""
+    for ch in s:
+        if ch in "[(":
+            depth += 1
+        elif ch in "])":
+            depth -= 1
+        if ch == "," and depth == 0:
+            out.append(cur.strip())
+            cur = ""
+        else:
+            cur += ch
+    if cur.strip():
+        out.append(cur.strip())
+    return out
+
+
 def type_ok(v, t):
     if isinstance(t, (list, tuple)) and not isinstance(t, str):
         return isinstance(v, list) and len(v) == len(t) and all(type_ok(x, y) for x, y in zip(v, t))
-    for a in [x.strip() for x in t.split("|")]:
+    for a in ([t.strip()] if t.strip()[:1] in "[(" else [x.strip() for x in t.split("|")]):
         if a in ("int", "nat") and isinstance(v, int) and not isinstance(v, bool):
             return True
         if a == "bool" and isinstance(v, bool):
@@ -90,11 +108,11 @@ def type_ok(v, t):
         if a == "any":
             return True
         if a.startswith("[") and a.endswith("]") and isinstance(v, list):
-            inner = [x.strip() for x in a[1:-1].split(",") if x.strip()]
+            inner = split_top(a[1:-1])
             if len(inner) == len(v) and all(type_ok(x, y) for x, y in zip(v, inner)):
                 return True
         if a.startswith("(") and a.endswith(")") and isinstance(v, tuple):
-            inner = [x.strip() for x in a[1:-1].split(",") if x.strip()]
+            inner = split_top(a[1:-1])
             if len(inner) == len(v) and all(type_ok(x, y) for x, y in zip(v, inner)):
                 return True
         if a.startswith("list[") and isinstance(v, list):
